@@ -45,7 +45,7 @@ REQUIRED = ["branches_checked", "paths_checked", "tips_checked", "furcations_che
             "branch_tree_memory_probed", "longest_path_checked", "root_one_child_trees",
             "derived_trees_checked", "negative_position_handles", "relinked_through_callers_array",
             "tap_get_branches", "tap_from_tree"]
-FLOOR = {"quick": 550, "thorough": 10000}
+FLOOR = {"quick": 550, "thorough": 50000}
 SHARDS = {"quick": 8, "thorough": 16}
 
 
@@ -325,7 +325,7 @@ def run(ctx):
                           "get_paths": Tree.get_paths})
     with tap:
         rng = ctx.rng
-        n_trees = ctx.scale(1100, 20000)
+        n_trees = ctx.scale(1100, 100000)
         for k in range(n_trees):
             if k % 6 == 0:  # stems of length 1..50 before the first furcation, explicit root degrees
                 rc = G.random_recipe(rng, max_n=int(rng.integers(3, 80)), shapes=["stem", "chain"],
